@@ -9,7 +9,7 @@ undecided (within 1e-6 of a threshold, degenerate normals) are only counted.
 import json
 import re
 
-from core import Result, ddmin, parallel_map
+from core import history_probe, Result, ddmin, parallel_map
 from gen import g3
 
 _CASES = []
@@ -212,6 +212,7 @@ def run(ctx):
                 "distinct by exact coordinates")
     cases = build_inputs(ctx, res)
     results = evaluate(ctx, cases)
+    history_probe(ctx, res, real, list(range(len(cases))), "find_stackings", describe=lambda ci: {"case": cases[ci][0]})
     for (tag, st, m), (impl, yes, und) in zip(cases, results):
         fam = tag.split(":")[0]
         res.count("family:" + fam)
